@@ -32,24 +32,25 @@ def showOut (b : Array UInt8) : String :=
 def parseSplits (s : String) : Option (List Nat) :=
   if s == "-" then some [] else (s.splitOn ",").mapM String.toNat?
 
-/-- the successive chunks the C driver's `hash` command feeds -/
+/-- the successive chunks the C driver's `hash` command feeds (harness/cdrv/c/wv_run.h, `cmd_hash`):
+    `v = sizes[next]; if next < n-1 then next++`, clipped to what is left; a zero size while `next`
+    points at the last entry means "the rest"; stop when the input is used up (at least one call). -/
 def chunksOf (sizes : List Nat) (x : List UInt8) : List (List UInt8) :=
-  let rec go (fuel : Nat) (sizes : List Nat) (last : Nat) (x : List UInt8) (acc : List (List UInt8)) :=
+  let sz := sizes.toArray
+  let rec go (fuel : Nat) (next : Nat) (x : List UInt8) (acc : List (List UInt8)) :=
     match fuel with
     | 0 => acc.reverse
     | fuel + 1 =>
-      let (n, rest, isLast) := match sizes with
-        | [] => (last, [], true)
-        | [a] => (a, [], true)
-        | a :: r => (a, r, false)
-      let n := if n > x.length then x.length else n
-      let n := if n == 0 && isLast && x.length > 0 then x.length else n
+      let v := sz.getD next 0
+      let next := if next + 1 < sz.size then next + 1 else next
+      let n := if v > x.length then x.length else v
+      let n := if n == 0 && next + 1 == sz.size && x.length > 0 then x.length else n
       let acc := x.take n :: acc
       let x := x.drop n
-      if x.isEmpty then acc.reverse else go fuel rest (if isLast then n else last) x acc
+      if x.isEmpty then acc.reverse else go fuel next x acc
   match sizes with
   | [] => [x]
-  | _ => go (x.length + sizes.length + 2) sizes 0 x []
+  | _ => go (x.length + sizes.length + 2) 0 x []
 
 def hashOp (codec : String) (parts : List (List UInt8)) : Option String :=
   let whole := parts.flatten
